@@ -10,11 +10,15 @@ from .codec import hx
 
 
 # ----------------------------------------------------------------------------- loop
+UPS = 1024
+
+
 class StepLoop(asyncio.SelectorEventLoop):
-    """virtual clock moved only by the harness; `_run_once` never blocks.  The harness thinks in
-    whole milliseconds (`_ms`); the float clock is set to the exact deadline of the timer that
-    fires, so float sums (0.1 + 0.2) neither delay a timer nor make it fire twice."""
-    EPS = 1e-6
+    """virtual clock moved only by the harness; `_run_once` never blocks.  The time unit is
+    1/1024 s (`UPS` units per second, called "ms" loosely): every clock value and every sum
+    aiohttp computes from it (`now + lingering_time`, `now + keepalive_timeout`, ceil()) is then
+    exact in binary floating point, so the model's integer arithmetic is the code's arithmetic."""
+    EPS = 1e-9
 
     def __init__(self):
         super().__init__()
@@ -65,14 +69,14 @@ class StepLoop(asyncio.SelectorEventLoop):
         self.settle()
         while True:
             w = self.next_timer()
-            if w is None or int(round(w * 1000)) > target:
+            if w is None or int(round(w * UPS)) > target:
                 break
             if w > self._vt:
                 self._vt = w
-            self._ms = max(self._ms, int(round(w * 1000)))
+            self._ms = max(self._ms, int(round(w * UPS)))
             self.settle()
         self._ms = target
-        self._vt = max(self._vt, target / 1000.0)
+        self._vt = max(self._vt, target / float(UPS))
         self.settle()
 
 
@@ -244,8 +248,8 @@ class Sim:
         app = web.Application(middlewares=[every_request])
         app.router.add_route("*", "/{tail:.*}", handler)
         self.runner = web.AppRunner(app, access_log=None, handler_cancellation=bool(cfg.get("hcancel")),
-                                    keepalive_timeout=cfg.get("keepalive_ms", 75000) / 1000.0,
-                                    lingering_time=cfg.get("linger_ms", 10000) / 1000.0)
+                                    keepalive_timeout=cfg.get("keepalive_ms", 75000) / float(UPS),
+                                    lingering_time=cfg.get("linger_ms", 10000) / float(UPS))
         self.loop.run_until_complete(self.runner.setup())
         asyncio.events._set_running_loop(self.loop)
         import threading
@@ -268,7 +272,7 @@ class Sim:
         stream = None
         for op in prog.split("."):
             if op[0] == "S":
-                await asyncio.sleep(int(op[1:]) / 1000.0)
+                await asyncio.sleep(int(op[1:]) / float(UPS))
             elif op == "R":
                 await request.read()
             elif op in ("P", "W") and request.method in ("HEAD", "CONNECT"):
